@@ -595,6 +595,57 @@ pub fn main(args: &[String]) {
                 }
             });
         }
+        Some("compositeglyph") => {
+            // CompositeGlyph.tla members as the component data of a composite glyph, through components(),
+            // component_glyphs_and_flags() and count_and_instructions()
+            use read_fonts::tables::glyf::{Anchor, CompositeGlyph};
+            use read_fonts::{FontData, FontRead};
+            let path = arg_after(args, "--cases").expect("--cases");
+            let trace_every: u64 = arg_after(args, "--trace-every").map(|s| s.parse().unwrap()).unwrap_or(1);
+            fvcore::tlc_stream(&path, &["CGCASE"], |_, c| {
+                rep.evaluations += 1;
+                let data: Vec<u8> = c["data"].as_array().unwrap().iter().map(|x| x.as_u64().unwrap() as u8).collect();
+                let mut g: Vec<u8> = vec![0xFF, 0xFF, 0, 0, 0, 0, 0, 0, 0, 0];
+                g.extend(&data);
+                let case = json!({"kind": "composite-glyph-case", "data": data});
+                let gb = g.clone();
+                let r = guarded(move || -> Result<(Vec<Value>, Vec<Value>, usize, i64), String> {
+                    let cg = CompositeGlyph::read(FontData::new(&gb)).map_err(|e| format!("{e:?}"))?;
+                    let full: Vec<Value> = cg.components().take(70_000).map(|c| {
+                        let (xy, a) = match c.anchor { Anchor::Offset { x, y } => (true, vec![x as i64, y as i64]), Anchor::Point { base, component } => (false, vec![base as i64, component as i64]) };
+                        let t = c.transform;
+                        json!({"flags": c.flags.bits(), "glyph": c.glyph.to_u16(), "xy": xy, "args": a, "xf": [t.xx.to_bits(), t.yx.to_bits(), t.xy.to_bits(), t.yy.to_bits()]})
+                    }).collect();
+                    let fast: Vec<Value> = cg.component_glyphs_and_flags().take(70_000).map(|(g, f)| json!([g.to_u16(), f.bits()])).collect();
+                    let (count, instr) = cg.count_and_instructions();
+                    Ok((full, fast, count, instr.map(|i| i.len() as i64).unwrap_or(-1)))
+                });
+                match r {
+                    Err(p) => rep.violation(&format!("reading the components of a composite glyph panicked: {p}"), case),
+                    Ok(Err(e)) => {
+                        rep.add("glyph_header_rejected", 1);
+                        let _ = e;
+                    }
+                    Ok(Ok((full, fast, count, instr))) => {
+                        if c["complete"] == true {
+                            rep.add("well_formed_members", 1);
+                        }
+                        let agrees = json!(full) == c["full"] && json!(fast) == c["fast"] && instr == c["instr"].as_i64().unwrap() && count == fast.len();
+                        if !agrees {
+                            rep.add("outcome_differs_from_model", 1);
+                            if rep.samples.len() < 4 {
+                                rep.sample(json!({"case": case, "model": c, "full": full, "fast": fast, "count": count, "instr": instr}));
+                            }
+                        } else {
+                            rep.distinct += 1;
+                        }
+                        if rep.evaluations % trace_every == 0 || full.len() > fast.len() {
+                            ev.push(json!({"op": "compositeglyph", "full": full.len(), "fast": fast.len(), "count": count, "ids_full": full.iter().map(|c| json!([c["glyph"], c["flags"]])).collect::<Vec<_>>(), "ids_fast": fast}));
+                        }
+                    }
+                }
+            });
+        }
         Some("cmapiter") => {
             // CmapIter.tla group lists as raw cmap subtables through the real iterators
             use read_fonts::tables::cmap::{Cmap, Cmap12IterLimits, CmapSubtable};
